@@ -13,6 +13,8 @@ import (
 	"testing"
 	"unicode"
 	"unicode/utf8"
+
+	"github.com/AdguardTeam/AdGuardHome/internal/verifc15"
 )
 
 // Correspondence harness for the parser half of C15: Parser.Parse on
@@ -20,6 +22,27 @@ import (
 // error.
 
 var errC15Cut = errors.New("verif: connection cut")
+
+var errC15Full = errors.New("verif: no space left in the destination")
+
+// c15LimitWriter takes limit bytes in all; the write that crosses the limit
+// is short and returns an error, as a file under a file-size limit or on a
+// full disk does.
+type c15LimitWriter struct {
+	buf    bytes.Buffer
+	limit  int
+	failed bool
+}
+
+func (w *c15LimitWriter) Write(p []byte) (n int, err error) {
+	room := w.limit - w.buf.Len()
+	if len(p) <= room {
+		return w.buf.Write(p)
+	}
+	w.failed = true
+	w.buf.Write(p[:room])
+	return room, errC15Full
+}
 
 // c15Reader delivers data in the given chunk sizes, then io.EOF or an error.
 type c15Reader struct {
@@ -71,12 +94,24 @@ func c15Expand(ps []c15Piece) []byte {
 	return b.Bytes()
 }
 
-func c15Coq(ps []c15Piece) string {
+// c15Coq prints pieces; the 4 KiB filler is printed once per shard as a
+// shared definition.
+func c15Coq(defs *[]vfDef, ps []c15Piece) string {
 	items := make([]string, 0, len(ps))
 	for _, p := range ps {
-		if p.n > 0 {
+		switch {
+		case p.n > 0:
 			items = append(items, vfApp("R", vfN(uint64(p.b)), vfN(uint64(p.n))))
-		} else {
+		case strings.Contains(p.lit, verifc15.Filler):
+			i := strings.Index(p.lit, verifc15.Filler)
+			if i > 0 {
+				items = append(items, vfApp("L", vfBytes(p.lit[:i])))
+			}
+			items = append(items, vfApp("L", vfShare(defs, "c15_filler", vfBytes(verifc15.Filler))))
+			if rest := p.lit[i+len(verifc15.Filler):]; rest != "" {
+				items = append(items, vfApp("L", vfBytes(rest)))
+			}
+		default:
 			items = append(items, vfApp("L", vfBytes(p.lit)))
 		}
 	}
@@ -118,6 +153,8 @@ func c15ErrCode(err error) int64 {
 		return 3
 	case errors.Is(err, errC15Cut):
 		return 4
+	case errors.Is(err, errC15Full):
+		return 5
 	}
 	return 9
 }
@@ -200,12 +237,21 @@ func c15IsSpaceTrimmed(l []byte) bool {
 }
 
 func c15Run(out *vfOut, ps []c15Piece, fail bool, chunks []int, forced ...string) {
+	c15RunW(out, ps, fail, chunks, -1, forced...)
+}
+
+// c15RunW: limit < 0 = a destination that takes everything; otherwise one
+// that takes limit bytes in all.
+func c15RunW(out *vfOut, ps []c15Piece, fail bool, chunks []int, limit int, forced ...string) {
 	data := c15Expand(ps)
 	classes := map[string]bool{}
 	for _, f := range forced {
 		classes[f] = true
 	}
-	var dst bytes.Buffer
+	dst := &c15LimitWriter{limit: limit}
+	if limit < 0 {
+		dst.limit = int(^uint(0) >> 1)
+	}
 	var (
 		res *ParseResult
 		err error
@@ -213,7 +259,7 @@ func c15Run(out *vfOut, ps []c15Piece, fail bool, chunks []int, forced ...string
 	)
 	func() {
 		defer func() { pan = recover() }()
-		res, err = NewParser().Parse(&dst, &c15Reader{data: append([]byte(nil), data...), chunks: chunks, fail: fail}, make([]byte, DefaultRuleBufSize))
+		res, err = NewParser().Parse(dst, &c15Reader{data: append([]byte(nil), data...), chunks: chunks, fail: fail}, make([]byte, DefaultRuleBufSize))
 	}()
 	monOK, monMsg, monKey := true, "", ""
 	bad := func(key, msg string) {
@@ -227,9 +273,56 @@ func c15Run(out *vfOut, ps []c15Piece, fail bool, chunks []int, forced ...string
 		code = 8
 		res = &ParseResult{}
 	}
-	y := append([]byte(nil), dst.Bytes()...)
+	y := append([]byte(nil), dst.buf.Bytes()...)
 	if fail && err == nil {
 		bad("C15/read-error-swallowed", "the reader failed but Parse returned no error")
+	}
+	// The content failures of the property by the byte-level definition of
+	// package verifc15 (independent of the parser and of the model).
+	spec := verifc15.Classify(data)
+	for _, o := range spec.Obs {
+		classes[o] = true
+	}
+	switch {
+	case spec.Fails() && err == nil && pan == nil:
+		what := fmt.Sprintf("binary content: byte 0x%02x at line %d, column %d of a rule line", spec.BadByte, spec.BadLine, spec.BadCol)
+		if spec.HTML {
+			what = "HTML content before the first rule line"
+		}
+		bad("C15/content-failure-accepted", fmt.Sprintf("%s, but Parse accepted the body %q and wrote %q", what, c15Short(data), c15Short(y)))
+	case spec.Clean() && !fail && !dst.failed && err != nil:
+		bad("C15/clean-body-rejected", fmt.Sprintf("the body %q has neither HTML nor binary content nor an over-long line, the reader and the destination did not fail, but Parse returned %v", c15Short(data), err))
+	case spec.Clean() && !fail && !dst.failed && pan == nil && !bytes.Equal(y, spec.Norm):
+		bad("C15/normal-form-differs-from-spec", fmt.Sprintf("body %q: Parse wrote %q, the normal form is %q", c15Short(data), c15Short(y), c15Short(spec.Norm)))
+	}
+	if spec.Binary {
+		classes["spec-binary"] = true
+	}
+	if spec.HTML {
+		classes["spec-html"] = true
+	}
+	// A destination whose write failed: Parse must fail, having handed over
+	// exactly what the destination took.
+	if dst.failed {
+		classes["err-write"] = true
+		switch {
+		case len(y) == 0:
+			classes["write-fail-at-0"] = true
+		case y[len(y)-1] == '\n':
+			classes["write-fail-at-line-boundary"] = true
+		default:
+			classes["write-fail-mid-line"] = true
+		}
+		if spec.Clean() && limit == len(spec.Norm)-1 {
+			classes["write-fail-last-byte"] = true
+		}
+		if err == nil && pan == nil {
+			bad("C15/write-error-swallowed", fmt.Sprintf("the destination failed after %d bytes but Parse returned no error", limit))
+		} else if pan == nil && res.BytesWritten != len(y) {
+			bad("C15/written-count", fmt.Sprintf("BytesWritten %d, the destination took %d bytes", res.BytesWritten, len(y)))
+		}
+	} else if limit >= 0 {
+		classes["write-limit-not-reached"] = true
 	}
 	if err == nil && pan == nil {
 		// Shape of the stored form.
@@ -310,20 +403,34 @@ func c15Run(out *vfOut, ps []c15Piece, fail bool, chunks []int, forced ...string
 	for k := range classes {
 		cls = append(cls, k)
 	}
-	desc := string(data)
-	if len(desc) > 300 {
-		desc = fmt.Sprintf("%q … (%d bytes) … %q", desc[:80], len(desc), desc[len(desc)-80:])
+	var defs []vfDef
+	term := vfApp("CParse", c15Coq(&defs, ps), vfBool(fail), vfZ(code), vfBytes(res.Title),
+		vfN(uint64(res.RulesCount)), vfN(uint64(res.BytesWritten)), vfN(uint64(res.Checksum)), c15Coq(&defs, c15RLE(y)))
+	if limit >= 0 {
+		term = vfApp("CParseW", c15Coq(&defs, ps), vfN(uint64(limit)), vfBool(fail), vfZ(code), vfBytes(res.Title),
+			vfN(uint64(res.RulesCount)), vfN(uint64(res.BytesWritten)), vfN(uint64(res.Checksum)), c15Coq(&defs, c15RLE(y)))
+	}
+	desc := map[string]any{"text": c15Short(data), "read_error": fail}
+	if limit >= 0 {
+		desc["destination_takes"] = limit
 	}
 	out.Emit(vfCase{
-		Coq: vfApp("CParse", c15Coq(ps), vfBool(fail), vfZ(code), vfBytes(res.Title),
-			vfN(uint64(res.RulesCount)), vfN(uint64(res.BytesWritten)), vfN(uint64(res.Checksum)), c15Coq(c15RLE(y))),
+		Coq: term,
 		Nontrivial: code != 0 || res.RulesCount > 0,
 		Classes:    cls,
 		MonitorOK:  monOK,
 		MonitorMsg: monMsg,
 		FindingKey: monKey,
-		Desc:       map[string]any{"text": desc, "read_error": fail},
+		Desc:       desc,
+		Defs:       defs,
 	})
+}
+
+func c15Short(b []byte) string {
+	if len(b) > 300 {
+		return fmt.Sprintf("%s … (%d bytes) … %s", b[:100], len(b), b[len(b)-100:])
+	}
+	return string(b)
 }
 
 func TestVerifC15(t *testing.T) {
@@ -353,6 +460,42 @@ func TestVerifC15(t *testing.T) {
 	c15Run(out, c15Long(r0, 65535, "", "# c\n", "", '\t', 1), true, nil)
 	c15Run(out, c15Long(r0, 65400, "\r\n", "", "", 'b', 1), true, []int{65000, 300})
 
+	// One control byte (0x00..0x1F, 0x7F in turn) at the start of a rule line,
+	// inside one, as the last byte of the body, after 4 KiB of rules, in a
+	// comment line, in the title line.
+	filler := c15Piece{lit: verifc15.Filler}
+	for _, pos := range verifc15.Positions {
+		for k, v := range verifc15.Values() {
+			body := verifc15.CtlBody(v, pos, "p1.example")
+			ps := c15RLE([]byte(body))
+			if i := strings.Index(body, verifc15.Filler); i >= 0 {
+				ps = []c15Piece{{lit: body[:i]}, filler, {lit: body[i+len(verifc15.Filler):]}}
+			}
+			cls := "ctl-" + pos + "-accepted"
+			if verifc15.Classify([]byte(body)).Binary {
+				cls = "ctl-" + pos + "-rejected"
+			}
+			c15Run(out, ps, false, []int{1 + k, 4096}, cls)
+		}
+	}
+	// A destination that fails: every limit from 0 to the size of the normal
+	// form (and past it) for a text with a title, comments, CRLF and an
+	// unterminated last line; limits around a 4 KiB block for a longer one.
+	wtext := "! Title: W\n||p1.example^\r\n# c\n  ||p2.example^  \n\n||p3.example^"
+	for lim := 0; lim <= len(verifc15.Classify([]byte(wtext)).Norm)+2; lim++ {
+		c15RunW(out, lit(wtext), false, []int{7, 3}, lim)
+	}
+	long := []c15Piece{filler, {lit: "||tail.example^\n"}}
+	for _, lim := range []int{0, 1, 27, 28, 29, 4095, 4096, 4097, len(verifc15.Filler) - 1, len(verifc15.Filler), len(verifc15.Filler) + 15, len(verifc15.Filler) + 16, len(verifc15.Filler) + 17} {
+		c15RunW(out, long, false, []int{4096}, lim)
+	}
+	c15RunW(out, lit("||a^\n<html>\n"), false, nil, 2)
+	c15RunW(out, lit("||a^\n\x01\n"), false, nil, 2)
+	c15RunW(out, lit("||a^\n\x01\n"), false, nil, 4)
+	c15RunW(out, lit("<html>\n||a^\n"), false, nil, 0)
+	c15RunW(out, lit("||a^\n||b^\n"), true, nil, 5)
+	c15RunW(out, lit("# nothing\n\n"), false, nil, 0)
+
 	r := vfNewRand(out.Seed)
 	n := out.Scale(2500, 40000)
 	for i := 0; i < n; i++ {
@@ -363,6 +506,18 @@ func TestVerifC15(t *testing.T) {
 			chunks = append(chunks, int(rr.Range(1, 40)))
 		}
 		c15Run(out, ps, rr.Chance(1, 6), chunks)
+		if rr.Chance(1, 8) {
+			// The same text against a destination that fails somewhere up to
+			// two bytes past its normal form.
+			sp := verifc15.Classify(c15Expand(ps))
+			c15RunW(out, ps, rr.Chance(1, 10), chunks, int(rr.Range(0, int64(len(sp.Norm))+2)))
+		}
+		if rr.Chance(1, 10) {
+			// One control byte somewhere in an enumerated body.
+			v, pos := vfPick(rr, verifc15.Values()), vfPick(rr, verifc15.Positions[:4])
+			body := verifc15.CtlBody(v, pos, vfPick(rr, []string{"p1.example", "x"}))
+			c15Run(out, []c15Piece{{lit: vfPick(rr, c15Skips) + "\n" + body}}, false, chunks)
+		}
 	}
 	nl := out.Scale(4, 40)
 	for i := 0; i < nl; i++ {
